@@ -4,7 +4,7 @@ import XixiKV.Proofs.IterStableCursor
 # Snapshot stability, part 3: iterator calls interleaved with writes  (helper lemmas for C10)
 
 * `Abs.mapV φ a`   — the abstract cursor with every stored value replaced by `φ value` (keys and
-  index untouched); it commutes with creation, with every call, with `admissible`, and maps the
+  index untouched); it commutes with creation, with every call, and maps the
   observation (`Abs.mapV_*`).
 * `Ev`             — an event of an interleaved run: an iterator call or a database write
   (`HOp`: plain operation, batch operation, `Merge`, `Backup`).
@@ -66,25 +66,13 @@ theorem Abs.mapV_step (a : Abs V) (c : Call) : (a.step c).mapV φ = (a.mapV φ).
     split <;> rfl
   | seek k =>
     unfold Abs.step Abs.seek Abs.mapV
-    simp only [Abs.lowerBound_mapV]
+    simp only [Abs.lowerBound_mapV, List.length_map]
+    split <;> rfl
 
 theorem Abs.mapV_obs (a : Abs V) : (a.mapV φ).obs = a.obs.mapV φ := by
   unfold Abs.obs Abs.valid Abs.key Abs.value Abs.mapV Obs.mapV
   simp only [List.length_map, List.getElem?_map, Option.map_map]
   rfl
-
-theorem Abs.mapV_admissible (calls : List Call) : ∀ (a : Abs V),
-    (a.mapV φ).admissible calls = a.admissible calls := by
-  induction calls with
-  | nil => intro a; rfl
-  | cons c cs ih =>
-    intro a
-    simp only [Abs.admissible, ← Abs.mapV_step, ih]
-    cases c with
-    | rewind => rfl
-    | next => rfl
-    | seek k =>
-      simp only [Abs.mapV, Abs.lowerBound_mapV]
 
 theorem Abs.mapV_trace (calls : List Call) : ∀ (a : Abs V),
     (a.mapV φ).trace calls = (a.trace calls).map (Obs.mapV φ) := by
@@ -218,22 +206,20 @@ theorem see_eq {s0 s : St} {db0 : DB} {g : GDir} (hdb : s0.db = some db0) (hinv 
 theorem transcript_eq {s0 : St} {db0 : DB} {g : GDir} (hdb : s0.db = some db0) (hinv : SnapOK s0 db0 g)
     (pre : Key) (rev : Bool) (evs : List Ev) :
     ∀ {s : St} {it : Iter} {a : Abs Pos}, Step s0 s → CSim (iterOrder rev db0.index) pre rev it a →
-      a.admissible (callsOf evs) = true →
       transcript s it evs = specTranscript (a.mapV (valueAt s0 db0)) evs := by
   have hsorted : Sorted rev (iterOrder rev db0.index) := (sorted_of_pairwise hinv.sorted).iterOrder
   induction evs with
   | nil =>
-    intro s it a hst h _
+    intro s it a hst h
     simp only [transcript, specTranscript, see_eq hdb hinv hst h]
   | cons e es ih =>
-    intro s it a hst h hadm
+    intro s it a hst h
     cases e with
     | call c =>
-      obtain ⟨h1, h2⟩ := admissible_cons (c := c) (cs := callsOf es) hadm
       simp only [transcript, specTranscript, see_eq hdb hinv hst h, ← Abs.mapV_step]
-      rw [ih hst (h.step hsorted c h1) h2]
+      rw [ih hst (h.step hsorted c)]
     | write w =>
       simp only [transcript, specTranscript, see_eq hdb hinv hst h]
-      rw [ih (hst.trans (Step_hstep s w)) h hadm]
+      rw [ih (hst.trans (Step_hstep s w)) h]
 
 end XixiKV.Engine.IterP
